@@ -166,6 +166,21 @@ PROPS = {
         "assumptions": ["the oracle recomputes the CMAC with its own call of spao.ComputeAuthCMAC over the packet as received and the key it derives itself",
                         "path reversal is checked against the harness's own reversal of the encoded path"],
     },
+    "C14": {
+        "level": "exploration",
+        "budget": {"quick": 80, "thorough": 900},
+        "runs": {"quick": 1200, "thorough": 120000},
+        "rule": "one run = (a) an NTS-KE message (the real server's message from newNTSKEMsg in 1/3 of the runs, else a generated one with 1..8 cookies of 0..300 bytes and unknown non-critical records) fed to the real ReadData over "
+                "the simulated stream cut at a window of 40 consecutive single positions (windows tile the message across the runs of a batch), at 6 random multi-cut sets and byte by byte, every 7th set through a real TLS 1.3 session whose peer "
+                "writes one TLS record per piece; (b) six NTS-protected exchanges with losses whose datagrams are decoded and re-encoded in flight (NTP header identity, accessors, NTS field kinds/alignment vs the harness's walker); "
+                "(c) round trips of generated values through the real codecs: NTP headers (8/16-bit fields cycled with the run index), CSPTP messages and both TLVs with and without server state, plain and sealed server cookies with unequal key lengths, "
+                "NTS requests/responses at every pool level, NTS-KE records; non-trivial = at least two segmented decodes; distinct = distinct event-log hash",
+        "required_probes": ["segmentation-checked", "codecs-checked", "nts-datagram-monitored"],
+        "components": {"real": ["net/ntske ReadData, ExchangeMsg.Pack, cookies", "net/nts EncodePacket/DecodePacket/Process*", "net/ntp EncodePacket/DecodePacket", "net/csptp Encode*/Decode*", "core/server newNTSKEMsg", "crypto/tls"],
+                       "stub": dict(STUBS_COMMON, **{"TCP": "simnet streams with explicit cut positions"})},
+        "assumptions": ["the 'for all field values' quantifier of the codec clauses is covered by generation only (8/16-bit fields are swept across the runs of a batch, wider fields are random); only the segmentation clause is a schedule property",
+                        "NTS requests that would exceed 1024 bytes (known finding F13) are not generated here"],
+    },
     "C15": {
         "level": "exploration",
         "budget": {"quick": 80, "thorough": 900},
@@ -244,7 +259,7 @@ NOT_APPLICABLE = {
 
 # Properties that the design claims but whose world is not built yet (kept current).
 NOT_YET = {p: "designed (DESIGN.md section 3) but the simulated world is not built yet; not claimed until its check runs"
-           for p in ["C08", "C14"]}
+           for p in ["C08"]}
 
 PROPS["C01"].update(
     level_text="seeded exploration of multi-round histories of the real synchronization loop with scripted sources (values over the whole int64 range, failures, late answers, sources that never answer) and admissible/inadmissible configurations; per-round invariants: exactly one correction, magnitude bounds from the statement, exact value when every source answered in time, correction no later than the round's timeout; start-up refusal of inadmissible settings. Evidence, not proof.",
@@ -298,6 +313,10 @@ PROPS["C13"].update(
     level_text="seeded exploration with in-flight tampering at a relay router: a request (response) carrying the time service's authenticator is served (accepted) only if an independent recomputation of its CMAC matches, the reply to a verified request verifies, every reply goes to the previous hop over the independently reversed path with addresses and ports exchanged, SCMP payloads are echoed intact, and forwarding happens only from the end-host port and never back to it. Evidence, not proof.",
     level_note="IPv4 hosts, empty and standard SCION paths; DRKeys from a mock daemon; border-router MAC checks are not modelled",
     technique="deterministic simulation with fault injection: tampering relay router, independent MAC recomputation and reply-addressing oracle")
+PROPS["C14"].update(
+    level_text="the segmentation clause is decided by simulation: the real record reader over a simulated stream cut at every single position (tiled across a batch) and at random multiple positions, raw and through TLS; the codec clauses are checked on every datagram in flight and on generated values through the real encoders/decoders. Evidence, not proof; exhaustive only for single cut positions of the messages used when the batch is large enough to tile them.",
+    level_note="codec round trips are input generation, not simulation (scope stated in DESIGN.md); QUIC transport not run",
+    technique="deterministic simulation: scripted stream segmentation (every cut position), in-flight decode/re-encode monitor, generated codec round trips")
 PROPS["C15"].update(
     level_text="seeded exploration of multi-round path offers, withdrawals, duplicates and losses with the path each client used observed at per-path relay routers: pairwise distinct paths, participation bounded by the offer, sticky interleaved paths, reset otherwise, error without paths, fault-tolerant midpoint of per-client values; plus complete enumeration of the sampling routine's draw sequences for small n, k. Evidence (exhaustive for the stated sampling sub-space), not proof.",
     level_note="IPv4, no packet authentication in this world; clients identified by DSCP on the wire",
